@@ -408,6 +408,35 @@ def extra_rules(ctx, P, fns):
         if name != "fsg_history_entry_add":
             ctx.check(o14, g.ret in ("int", "long", "struct fsg_hist_entry_s *"), "%s:ret" % name, g.where(g.root), "%s returns `%s`" % (name, g.ret))
 
+    # ---- O15 the tree of one state shares nodes with no other state's ------------------------------------------
+    o15 = ctx.rule("SCOPE.O15-roots-per-state", "the table by which psubtree_add_trans reuses root nodes (keyed by a word's first two phones) lives for one call of fsg_psubtree_init, that is for one source state: a word is only ever attached under roots built for its own state, so a history entry that ends in a state can only enter words that leave that state", floor=2)
+    li = P.fn("fsg_psubtree_init", "fsg_lextree.c")
+    ctx.touch(li)
+    adds = li.calls("psubtree_add_trans")
+    if not adds:
+        raise AnalysisIncomplete("fsg_psubtree_init no longer calls psubtree_add_trans")
+    for n_, c in enumerate(adds):
+        a = li.strip(li.args(c)[2])
+        tgt = li.strip(li.ch(a)[0]) if li.k(a) == "Un" and li.nodes[a]["op"] == "&" else None
+        local = tgt is not None and li.k(tgt) == "DeclRef" and li.nodes[tgt].get("ref") == "local"
+        fresh = False
+        if local:
+            nm = li.nodes[tgt]["name"]
+            inits = [v for v in li.find("Var") if li.nodes[v].get("name") == nm]
+            sts = [s_ for s_ in paths.stores(li) if s_["path"] == nm and s_["node"] not in inits]
+            fresh = len(inits) == 1 and ((li.ch(inits[0]) and paths._is_zero(li, li.ch(inits[0])[0])) or any(s_["rhs"] is not None and paths._is_zero(li, s_["rhs"]) and paths.always_before(li, c, lambda e, n=s_["node"]: e == n) for s_ in sts)) and all(s_["rhs"] is not None and paths._is_zero(li, s_["rhs"]) for s_ in sts)
+        ctx.check(o15, local and fresh, "fsg_psubtree_init:root-table#%d" % n_, li.where(c), "the root-reuse table handed to psubtree_add_trans (`%s`) is not a table that starts empty in this call of fsg_psubtree_init: roots built for one state are reused for words leaving another, and a path can continue from a state with a word that does not leave it" % li.canon(li.args(c)[2], subst=False))
+    lx = P.fn("fsg_lextree_init", "fsg_lextree.c")
+    ctx.touch(lx)
+    ci = lx.calls("fsg_psubtree_init")
+    okr = len(ci) == 1
+    if okr:
+        par = lx.up(ci[0])
+        while par is not None and lx.k(par) in ("Paren", "ICast", "Cast"):
+            par = lx.parent[par]
+        okr = par is not None and lx.k(par) == "Assign" and re.match(r"^lextree->root\[(\w+)\]$", lx.canon(lx.ch(par)[0], subst=False)) is not None and lx.canon(lx.args(ci[0])[2], subst=False) == re.match(r"^lextree->root\[(\w+)\]$", lx.canon(lx.ch(par)[0], subst=False)).group(1)
+    ctx.check(o15, okr, "fsg_lextree_init:root-of-state", lx.where(ci[0]) if ci else lx.where(lx.root), "root[s] is not the tree fsg_psubtree_init builds for state s")
+
 
 def _rel_calls(fn, cond, pol):
     """like paths.rel, with provenance through the exit-search call"""
